@@ -13,7 +13,7 @@ from vf.core import rows_with_pos, scaffold_len
 from vf.gen import asm as gasm
 from vf.gen import pv as gpv
 
-NAMETAGS = ["X", "Y", "Z", "W", "B1", "B2", "B10", "A12", "U", "V", "I", "II", "III"]
+NAMETAGS = ["X", "Y", "Z", "W", "B1", "B2", "B10", "A12", "U", "V", "I", "II", "III", "2RL", "10XY", "1RL"]  # (\d+[A-Z]+ is a name too)
 
 
 def margin(t):
@@ -71,16 +71,29 @@ def _emit(rng, design_scaffolds, target_mode):
     return pt
 
 
-def gen_single(rng, t, inp, vanishing=False):
+def gen_single(rng, t, inp, vanishing=False, drop_piece=False):
     """One haplotype.  Returns (pretext, design)."""
     by_name = {s[0]: s for s in inp}
     pieces, labels = gpv.gen_pieces(rng, inp, t, cut_prob=0.6)
+    absent_rows = []
+    if drop_piece and len(pieces) >= 3:
+        # one piece of a scaffold is missing from the map while its sister pieces are there: the contigs
+        # inside its core are "sequence absent from the map" (left over, re-added under the input name)
+        cands = [p for p in pieces if sum(1 for q in pieces if q["s"] == p["s"]) >= 2]
+        if cands:
+            gone = rng.choice(cands)
+            pieces = [p for p in pieces if p is not gone]
+            ci = core_interval(gone, t)
+            if ci:
+                absent_rows = [[gone["s"], r] for x1, x2, r in rows_with_pos(by_name[gone["s"]][1]) if r[0] == "F" and x1 >= ci[0] and x2 <= ci[1]]
+            labels.add("tag:piece-dropped-from-map")
     rng.shuffle(pieces)
     target_mode = rng.random() < 0.3
     prefix = rng.choice(["SUPER_", "SUPER_", "CHR", "RL_"])
     pcs = list(pieces)
     design = []
     many = rng.random() < 0.08
+    roman_family = rng.random() < 0.5
     nchr = rng.randint(0, max(0, len(pcs) // 2)) if not many else max(0, len(pcs) - 2)
     used_names = set()
     for c in range(nchr):
@@ -90,7 +103,9 @@ def gen_single(rng, t, inp, vanishing=False):
         grp, pcs = pcs[:k], pcs[k:]
         nametag = None
         if rng.random() < 0.25:
-            cand = [x for x in NAMETAGS if x not in used_names]
+            # never nematode numerals together with digit-leading names in one map: II and 2RL have sort keys
+            # of which one is a prefix of the other (the D10 family, judged in C20's own shard)
+            cand = [x for x in NAMETAGS if x not in used_names and not (x[0].isdigit() if roman_family else x in ("I", "II", "III"))]
             if cand:
                 nametag = rng.choice(cand)
                 used_names.add(nametag)
@@ -128,6 +143,12 @@ def gen_single(rng, t, inp, vanishing=False):
         row_tags = {}
         if nametag:
             row_tags[rng.randrange(len(grp))] = [nametag]
+        for j, pc in enumerate(grp):
+            # a piece that is set aside as haplotig / false duplicate may be an unlocalised one: the explicit
+            # destination wins and the piece takes no unloc number (Contaminant + Unloc is left out: contradictory)
+            if pc["kind"] in ("htig", "fdup") and rng.random() < 0.35:
+                row_tags.setdefault(j, []).append("Unloc")
+                labels.add("tag:set-aside-piece-also-tagged-unloc")
         for pc in grp:
             pc["chrom"] = c
             pc["nametag"] = nametag
@@ -166,6 +187,7 @@ def gen_single(rng, t, inp, vanishing=False):
         "target_mode": target_mode and first_target is not None,
         "first_target": first_target,
         "pieces": all_pieces,
+        "absent_rows": absent_rows,
         "labels": sorted(labels),
     }
 
